@@ -37,7 +37,10 @@ pub fn gamma(z: f64) -> f64 {
             x += val / ((z - 1.) + (idx as f64) + 1.);
         }
         let t = (z - 1.) + G - 0.5;
-        ((2. * PI) as f64).sqrt() * t.powf((z - 1.) + 0.5) * (-t).exp() * x
+        // t^(z - 1/2) overflows long before gamma itself does (z > 171.6): apply the power in two
+        // halves around the decaying exponential
+        let half_pow = t.powf(0.5 * ((z - 1.) + 0.5));
+        ((2. * PI) as f64).sqrt() * half_pow * (-t).exp() * half_pow * x
     }
 }
 
